@@ -1651,6 +1651,11 @@ class Append(Opcode):
         list_obj = interpreter.stack[-1]
         if isinstance(list_obj, ast.List):
             list_obj.elts.append(value)
+        elif isinstance(list_obj, ast.Name):
+            # an object a call created (deque, list subclass, ...): the VM calls its append()
+            interpreter.module_body.append(
+                ast.Expr(ast.Call(ast.Attribute(list_obj, "append", ast.Load()), [value], []))
+            )
         else:
             raise ValueError(f"Expected a list on the stack, but instead found {list_obj!r}")
 
@@ -1662,6 +1667,17 @@ class Appends(StackSliceOpcode):
         list_obj = interpreter.stack[-1]
         if isinstance(list_obj, ast.List):
             list_obj.elts.extend(stack_slice)
+        elif isinstance(list_obj, ast.Name):
+            # an object a call created (deque, list subclass, ...): the VM calls its extend()
+            interpreter.module_body.append(
+                ast.Expr(
+                    ast.Call(
+                        ast.Attribute(list_obj, "extend", ast.Load()),
+                        [ast.List(elts=list(stack_slice), ctx=ast.Load())],
+                        [],
+                    )
+                )
+            )
         else:
             raise ValueError(f"Expected a list on the stack, but instead found {list_obj!r}")
 
